@@ -232,9 +232,16 @@ def run_pipeline(name, binp, opsfile, workdir, tag, timeout=None):
     if timeout is None:
         timeout = 3000 if os.environ.get('VERIF_TIER_EFFECTIVE') == 'thorough' else 300
     try:
-        return _run_pipeline(name, binp, opsfile, workdir, tag, timeout)
+        res = _run_pipeline(name, binp, opsfile, workdir, tag, timeout)
     except subprocess.TimeoutExpired as e:
         return _run_cases_separately(name, binp, opsfile, workdir, tag, timeout)
+    if any('harness run' in e and 'exited' in e for e in res['errors']) and sum(1 for l in open(opsfile) if l.startswith('case ')) > 1:
+        # the harness process died (a Go "all goroutines are asleep - deadlock!", an unrecovered panic in a goroutine of
+        # the daemon): find the input, as after a time-out
+        sep = _run_cases_separately(name, binp, opsfile, workdir, tag, timeout)
+        sep['errors'] = res['errors'] + sep['errors'][1:]
+        return sep
+    return res
 
 
 # properties that speak about progress: an input on which the implementation never answers is a failing input for them
@@ -263,7 +270,13 @@ def _run_cases_separately(name, binp, opsfile, workdir, tag, timeout):
         open(f, 'w').write('\n'.join(ch) + '\n')
         try:
             r = _run_pipeline(name, binp, f, workdir, f'{tag}.c{i}', per_case)
-            return [open(r[k]).read() for k in ('real', 'model', 'mon')], None
+            outs = [open(r[k]).read() for k in ('real', 'model', 'mon')]
+            died = [e for e in r['errors'] if 'harness run' in e and 'exited' in e]
+            if died:
+                cid = ch[0].split()[1]
+                outs[2] += ''.join(f'FAIL prop={p} reason=implementation-deadlocks-or-dies-on-this-input case={cid} block=0\n' for p in HANG_PROPS)
+                return outs, f'case {cid} alone: ' + died[0][:200]
+            return outs, None
         except subprocess.TimeoutExpired:
             echo = ''.join('> ' + l + '\n' for l in ch)
             cid = ch[0].split()[1]
